@@ -309,7 +309,7 @@ def run_corr(kind, seed, n, shards=None, compare_model=True, extra_env=None):
     return tot
 
 
-def run_corpus(pid, kind, compare_model=True):
+def run_corpus(pid, kind, compare_model=True, extra_env=None):
     """minimised past failures / seeded witnesses: corpus/<pid>/<kind>--<name>.txt, run first."""
     d = os.path.join(ROOT, "corpus", pid)
     tot = CorrResult()
@@ -318,7 +318,7 @@ def run_corpus(pid, kind, compare_model=True):
     for fn in sorted(os.listdir(d)):
         if fn.startswith(kind + "--") and fn.endswith(".txt"):
             lines = [l.rstrip("\n") for l in open(os.path.join(d, fn)) if l.strip() and not l.startswith("#")]
-            tot.merge(corr_shard(kind, 0, 0, compare_model, None, lines))
+            tot.merge(corr_shard(kind, 0, 0, compare_model, dict(extra_env or {}, VERIF_PROP=pid), lines))
     return tot
 
 
